@@ -131,8 +131,19 @@ func (fc *FuncCtx) evalCall(st *State, call *ast.CallExpr) []Term {
 			return nil
 		}
 	}
+	countCall := func() {
+		if fc.contract != nil {
+			for _, want := range strings.Fields(fc.contract.Opts["countcalls"]) {
+				if fn.Name() == want {
+					cur := st.ghost["calls_"+want]
+					st.ghost["calls_"+want] = mkMath("(+ " + cur.S + " 1)")
+				}
+			}
+		}
+	}
 	if spec, ok := fc.w.Intrinsics[key]; ok {
 		fc.usedContracts["intrinsic:"+key] = true
+		countCall()
 		return fc.evalIntrinsic(st, call, fn, spec)
 	}
 	c := fc.w.Contracts[key]
@@ -161,14 +172,7 @@ func (fc *FuncCtx) evalCall(st *State, call *ast.CallExpr) []Term {
 		fc.fail(call, "no contract for callee %s", key)
 	}
 	fc.usedContracts[key] = true
-	if fc.contract != nil {
-		for _, want := range strings.Fields(fc.contract.Opts["countcalls"]) {
-			if fn.Name() == want {
-				cur := st.ghost["calls_"+want]
-				st.ghost["calls_"+want] = mkMath("(+ " + cur.S + " 1)")
-			}
-		}
-	}
+	countCall()
 	if fc.w.ReflectReads[key] {
 		fc.reflectReads(st, call)
 	}
